@@ -154,7 +154,11 @@ def h_response(ctx, idx, outcome):
                           key=tag + "/enum-value")
                 label = "member"
             elif val == "MASK":
-                # "255 reads as MASK where the standard says so"
+                # "255 reads as MASK where the standard says so": of the enumerated answers only QUERY ASSIGNED
+                # COLOUR (209: 255 = MASK, channel not assigned); for QUERY EVENT SCHEME (103) codes 5..255
+                # are reserved and must be rejected
+                ctx.prove(cls.__name__ in MASK_ENUMS, "%s reads 255 as MASK; the standard defines no MASK for it"
+                          % cls.__name__, key=tag + "/enum-mask-undefined")
                 ctx.prove(E.eq(v, 255), "MASK reported for a code other than 255", key=tag + "/enum-mask")
                 label = "MASK"
             else:
@@ -271,6 +275,9 @@ def h_bitmap_history(ctx, idx, prev):
     raw = F.BackwardFrame(v)
     r = cls(raw)
     return _bitmap(ctx, cls, r, raw, v, "clean", tag)
+
+
+MASK_ENUMS = ("QueryAssignedColourResponse",)
 
 
 def h_ctor_types(ctx):
